@@ -228,6 +228,8 @@ def productions(res_list):
             out["self:%s:%s" % (owner.kind, m.self_kind[0] if m.self_kind else "static")] += 1
             for pn, pt in m.params:
                 ty_productions(prog, pt, "param", out)
+                if pn in getattr(m, "dip_params", ()):
+                    out["param:Diplomat spelling:" + pt[0]] += 1
             ty_productions(prog, m.ret, "ret", out)
             # arms actually taken
             r = st["ret"]
@@ -247,7 +249,7 @@ REQUIRED_C = ["param:prim:u8", "param:prim:i64", "param:prim:f32", "param:prim:f
               "ret:&opaque", "ret:Option<prim>", "ret:DiplomatOption<prim>", "ret:result", "ret:ok:unit", "ret:err:unit", "ret:ordering",
               "ret:&str:utf8:static", "ret:&slice", "arm:ok", "arm:err", "arm:some", "arm:none", "destroy", "self:struct:val",
               "self:enum:val", "self:opaque:mut", "field:DiplomatOption<prim>", "field:struct",
-              "param:trait", "trait:&mut self", "trarg:struct", "trarg:Option<prim>", "trret:Option<prim>", "cbarg:Option<prim>", "cbret:Option<prim>", "param:callback:static", "trait:method disabled in C"]
+              "param:trait", "trait:&mut self", "trarg:struct", "trarg:Option<prim>", "trret:Option<prim>", "cbarg:Option<prim>", "cbret:Option<prim>", "param:callback:static", "trait:method disabled in C", "param:Diplomat spelling:slice", "param:Diplomat spelling:str", "param:Diplomat spelling:oslice", "param:Diplomat spelling:strs"]
 
 
 def quota_gaps(prods, required):
